@@ -268,7 +268,10 @@ def shard_many_tuples(sh):
     that disagree on a constituent share a value (birthday bound of a 32-bit code is ~2^16 tuples)."""
     cr = pipe.fresh_core_ranking()
     n = 300000 if sh.tier == 'quick' else 900000
-    data = {'u': ['u%d' % (i // 700) for i in range(n)], 'v': [str(i % 700) for i in range(n)], 'w': ['w%d' % (i % 3) for i in range(n)], 'label': ['y%d' % (i % 2) for i in range(n)]}
+    import hashlib
+    U = [hashlib.md5(b'u%d' % i).hexdigest()[:7] for i in range(n // 700 + 1)]       # unstructured tokens (structured ids hash almost injectively)
+    V = [hashlib.md5(b'v%d' % i).hexdigest()[:5] for i in range(700)]
+    data = {'u': [U[i // 700] for i in range(n)], 'v': [V[i % 700] for i in range(n)], 'w': ['w%d' % (i % 3) for i in range(n)], 'label': ['y%d' % (i % 2) for i in range(n)]}
     cols = list(data)
     verify(sh, cr, data, cols, 'label', 2, 10 ** 6, False, 'many-distinct-tuples(%d rows)' % n, sample=False)
     sh.notes['rows'] = n
